@@ -510,4 +510,5 @@ func (g *c10Gen) run() {
 	g.genTrees()
 	g.genBolt()
 	g.genObj()
+	g.genHist()
 }
